@@ -458,17 +458,18 @@ fn gen_l1(r: &mut Rng, inst: u64, time: i64, adv: bool) -> Ev {
     let bid = if r.chance(1, 8) { None } else { Some((quarter_dec(mid - r.range(0, 3)), gen_amount(r))) };
     let ask = if r.chance(1, 8) { None } else { Some((quarter_dec(mid + r.range(0, 3)), gen_amount(r))) };
     // connectors set last_update_time = time_exchange; adversarial: an unrelated one
-    let lt = if adv && r.chance(1, 3) { time + r.range(-5000, 5000) } else { time };
+    let lt = if adv && r.chance(1, 12) { time + r.range(-5000, 5000) } else { time };
     Ev::L1 { inst, time, lt, bid, ask }
 }
 
 fn gen_history(r: &mut Rng, max_len: u64, adv: bool) -> (u64, Vec<Ev>) {
     let n_inst = 2 + r.below(2);
     let len = 1 + r.below(max_len);
-    let mut time = 1_700_000_000_000i64 + r.below(1_000_000) as i64;
+    let mut front = 1_700_000_000_000i64 + r.below(1_000_000) as i64;
     let mut net: Vec<Decimal> = vec![Decimal::ZERO; n_inst as usize];
     let mut evs = vec![];
     let mut next_id = 1u64;
+    let mut seen_times: Vec<i64> = vec![];
     // a history leans towards one style of market data so that both price sources get used
     let style = r.below(3); // 0: trades only, 1: l1 only, 2: mixed
     // half of the histories open / flip positions with zero-fee fills only: they stay outside the
@@ -476,11 +477,25 @@ fn gen_history(r: &mut Rng, max_len: u64, adv: bool) -> (u64, Vec<Ev>) {
     let zero_fee_opens = r.chance(1, 2);
     for _ in 0..len {
         let inst = if r.chance(3, 4) { 0 } else { r.below(n_inst) };
-        time = if r.chance(1, if adv { 3 } else { 10 }) {
-            time - r.below(3_000) as i64 // stale / equal timestamps
-        } else {
-            time + 1 + r.below(5_000) as i64
+        // timestamps are non-monotone and collide ACROSS event kinds (a trade stamped later than
+        // a subsequent top-of-book update, equal stamps on a trade and an L1, ...): `front` is the
+        // running front, `t_ev` the stamp of this event
+        let t_ev = match r.below(if adv { 6 } else { 10 }) {
+            0 if !seen_times.is_empty() => *r.pick(&seen_times), // equal to an earlier event of any kind
+            1 => front - r.below(3_000) as i64,                  // behind the front
+            2 if seen_times.len() >= 2 => {
+                // strictly between two earlier stamps
+                let a = *r.pick(&seen_times);
+                let b = *r.pick(&seen_times);
+                (a + b) / 2
+            }
+            _ => {
+                front += 1 + r.below(5_000) as i64;
+                front
+            }
         };
+        seen_times.push(t_ev);
+        let time = t_ev;
         let ev = if r.chance(2, 5) {
             // fill
             let i = inst as usize;
@@ -560,6 +575,14 @@ fn table(em: &mut Emitter) {
         vec![Ev::Trade { inst: 0, time: 2000, quarter: Some(410) }],
         vec![Ev::L1 { inst: 0, time: 2000, lt: 2000, bid: Some((quarter_dec(408), mk_dec(3, 0))), ask: Some((quarter_dec(412), mk_dec(1, 0))) }],
         vec![
+            Ev::L1 { inst: 0, time: 2000, lt: 2000, bid: Some((quarter_dec(408), mk_dec(3, 0))), ask: Some((quarter_dec(412), mk_dec(1, 0))) },
+            Ev::Trade { inst: 0, time: 3500, quarter: Some(410) },
+        ],
+        vec![
+            Ev::L1 { inst: 0, time: 2000, lt: 2000, bid: Some((quarter_dec(408), mk_dec(3, 0))), ask: Some((quarter_dec(412), mk_dec(1, 0))) },
+            Ev::Trade { inst: 0, time: 3000, quarter: Some(410) },
+        ],
+        vec![
             Ev::Trade { inst: 0, time: 2000, quarter: Some(410) },
             Ev::L1 { inst: 0, time: 2100, lt: 2100, bid: Some((quarter_dec(408), mk_dec(3, 0))), ask: Some((quarter_dec(412), mk_dec(1, 0))) },
         ],
@@ -592,7 +615,7 @@ fn table(em: &mut Emitter) {
                         evs.extend(ps.iter().cloned());
                         evs.extend(ds.iter().cloned());
                     } else {
-                        if ds.is_empty() || ps.is_empty() {
+                        if ds.len() != 1 || ps.is_empty() {
                             continue;
                         }
                         evs.extend(ds.iter().cloned());
@@ -615,7 +638,7 @@ fn main() {
     match args.mode.as_str() {
         "gen" => {
             let mut r = Rng::new(args.seed);
-            let (n_rand, n_adv, max_len) = if args.tier == "thorough" { (2500, 800, 80) } else { (220, 80, 30) };
+            let (n_rand, n_adv, max_len) = if args.tier == "thorough" { (2500, 800, 80) } else { (170, 60, 30) };
             table(&mut em);
             for _ in 0..n_rand {
                 let (n_inst, evs) = gen_history(&mut r, max_len, false);
